@@ -273,7 +273,7 @@ func rtMetrics() *sched.Instance {
 		// one status code only: iterating a multi-entry map of per-code counters (each with its
 		// own lock) would make the order of scheduling points depend on Go's random map order
 		func() { m.Record(502, time.Millisecond); m.Record(502, time.Second) },
-		func() { m.Record(502, time.Millisecond) },
+		func() { m.Record(502, 2*time.Hour) }, // a latency beyond the histogram's range (a long-lived streaming exchange)
 		func() {
 			m.NetworkErrorRatio()
 			m.ResponseCodeRatio(500, 600, 0, 600)
